@@ -100,6 +100,19 @@ type (
 		// internal option to indicate if the
 		// END word is parsed as a terminator.
 		endterm *regexp.Regexp
+		// failed records the nested block scans that did not find their END,
+		// keyed by block kind and by the length of the input left to scan. All
+		// nested scanners work on suffixes of the same text and share the table,
+		// so a block opener that failed once is not scanned again by the outer
+		// scanners that reach it later (which made scanning exponential in the
+		// number of unterminated BEGINs).
+		failed map[blockScan]struct{}
+	}
+
+	// blockScan identifies a nested scan of a BEGIN block.
+	blockScan struct {
+		kind byte // 'a': BEGIN ATOMIC, 't': BEGIN TRY, 'b': BEGIN
+		rest int  // length of the text after the block opener
 	}
 
 	// ScannerOptions controls the behavior of the scanner.
@@ -153,6 +166,7 @@ func (s *Scanner) init(input string) error {
 	s.comments = nil
 	s.pos, s.total, s.width = 0, 0, 0
 	s.src, s.input, s.delim = input, input, delimiter
+	s.failed = make(map[blockScan]struct{})
 	if d, ok := directive(input, directiveDelimiter, directivePrefixSQL); ok {
 		if err := s.setDelim(d); err != nil {
 			return err
@@ -345,16 +359,21 @@ func (s *Scanner) skipDollarQuote() error {
 	}
 }
 
-func (s *Scanner) skipBeginAtomic() error {
+func (s *Scanner) skipBeginAtomic() (err error) {
 	m := reBeginAtomic.FindString(s.input[s.pos-1:])
 	if m == "" {
 		return s.error(s.pos, "unexpected missing BEGIN ATOMIC block")
 	}
 	s.addPos(len(m) - 1)
+	if err := s.tryBlock('a'); err != nil {
+		return err
+	}
+	defer s.blockDone('a', len(s.input)-s.pos, &err)
 	body := &Scanner{ScannerOptions: s.ScannerOptions}
 	if err := body.init(s.input[s.pos:]); err != nil {
 		return err
 	}
+	body.failed = s.failed
 	for {
 		stmt, err := body.stmt()
 		if err == io.EOF {
@@ -371,16 +390,21 @@ func (s *Scanner) skipBeginAtomic() error {
 	return nil
 }
 
-func (s *Scanner) skipBeginTryCatch() error {
+func (s *Scanner) skipBeginTryCatch() (err error) {
 	m := reBeginTry.FindString(s.input[s.pos-1:])
 	if m == "" {
 		return s.error(s.pos, "unexpected missing BEGIN TRY block")
 	}
 	s.addPos(len(m) - 1)
+	if err := s.tryBlock('t'); err != nil {
+		return err
+	}
+	defer s.blockDone('t', len(s.input)-s.pos, &err)
 	body := &Scanner{ScannerOptions: s.ScannerOptions}
 	if err := body.init(s.input[s.pos:]); err != nil {
 		return err
 	}
+	body.failed = s.failed
 	for {
 		stmt, err := body.stmt()
 		if err == io.EOF {
@@ -406,12 +430,35 @@ var (
 	reEndTerm = regexp.MustCompile(`(?i)\s*END\s*$`)
 )
 
-func (s *Scanner) skipBegin() error {
+// errBlockFailed is returned for a block whose nested scan is known to fail.
+var errBlockFailed = errors.New("sql/migrate: block was already scanned without finding its end")
+
+// tryBlock reports an error if the nested scan of the block of the given
+// kind that starts at the current position is already known to fail.
+func (s *Scanner) tryBlock(kind byte) error {
+	if _, ok := s.failed[blockScan{kind, len(s.input) - s.pos}]; ok {
+		return errBlockFailed
+	}
+	return nil
+}
+
+// blockDone records the nested scan of a block as failed if it returned an error.
+func (s *Scanner) blockDone(kind byte, rest int, err *error) {
+	if *err != nil && s.failed != nil {
+		s.failed[blockScan{kind, rest}] = struct{}{}
+	}
+}
+
+func (s *Scanner) skipBegin() (err error) {
 	m := reBegin.FindString(s.input[s.pos-1:])
 	if m == "" {
 		return s.error(s.pos, "unexpected missing BEGIN block")
 	}
 	s.addPos(len(m) - 1)
+	if err := s.tryBlock('b'); err != nil {
+		return err
+	}
+	defer s.blockDone('b', len(s.input)-s.pos, &err)
 	group := &Scanner{ScannerOptions: s.ScannerOptions}
 	if s.BeginEndTerminator {
 		group.endterm = reEndTerm
@@ -419,6 +466,7 @@ func (s *Scanner) skipBegin() error {
 	if err := group.init(s.input[s.pos:]); err != nil {
 		return err
 	}
+	group.failed = s.failed
 Loop:
 	for {
 		switch stmt, err := group.stmt(); {
